@@ -61,4 +61,112 @@ def makeCreateFrame (db : Db) (addr : Addr) (t : Target) (value gasLimit : Nat) 
   | .flag hs => createAccountCheckpoint t hs value gasLimit spuriousDragon
   | _ => createAccountCheckpoint t false value gasLimit spuriousDragon   -- not reachable: `has_storage` answers a flag
 
+/-! ## How the target became warm
+
+`make_create_frame` reaches the target through `JournaledState::load_account`, which answers
+`StateLoad { data, is_cold }`, DROPS `is_cold`, and then asks `db.has_storage(created_address)`
+unconditionally. What the journal already knows about the address when creation reaches it — not
+there at all, pre-loaded by the transaction's access list (`initial_account_load`, with or without
+storage keys), loaded by BALANCE / EXTCODESIZE, loaded and touched by a CALL, left warm by an
+earlier failed CREATE2 with the same salt, or left in the map but cold by a reverted sub-call — is
+the `Warmth` dimension; `JAccount` is the journal's entry. -/
+
+/-- the journal's entry (`Account`) for the target as far as creation can look at it -/
+structure JAccount where
+  target : Target
+  /-- `AccountStatus::Cold` (only set by reverting an `AccountWarmed` entry) -/
+  cold : Bool
+  /-- the slots the journal has loaded so far with their present values (access-list keys, SLOADs) -/
+  slots : List (Slot × Nat)
+deriving Repr
+
+/-- `Account::from(info)` / `Account::new_not_existing()` as far as creation looks at it -/
+def targetOfInfo : Option Info → Target
+  | some i => { codeHash := i.codeHash, nonce := i.nonce, balance := i.balance }
+  | none => { codeHash := KECCAK_EMPTY, nonce := 0, balance := 0 }
+
+/-- the reply of `db.basic` as an `Option Info` (`basic` always answers an info) -/
+def infoOfReply : Reply → Option Info
+  | .info oi => oi
+  | _ => none
+
+/-- the reply of `db.storage` as a word -/
+def wordOfReply : Reply → Nat
+  | .word v => v
+  | _ => 0
+
+/-- the storage-key loop of `initial_account_load`: every key not yet loaded is read with `db.storage` -/
+def preloadKeys (db : Db) (a : Addr) : List Slot → List (Slot × Nat) → Db × List (Slot × Nat)
+  | [], acc => (db, acc)
+  | k :: ks, acc =>
+    match lookupSlot acc k with
+    | some _ => preloadKeys db a ks acc
+    | none =>
+      let r := db.query (.storage a k)
+      preloadKeys r.1 a ks ((k, wordOfReply r.2) :: acc)
+
+inductive Warmth
+  /-- first touch in this transaction is the creation itself -/
+  | coldFirstTouch
+  /-- listed in the transaction's access list with these storage keys (`initial_account_load`) -/
+  | accessList (keys : List Slot)
+  /-- BALANCE / EXTCODESIZE / EXTCODEHASH of the target before the create (`load_account`) -/
+  | opcodeLoad
+  /-- a CALL to the target that does no SLOAD there: loaded and touched -/
+  | called
+  /-- an earlier CREATE2 with the same salt failed in this transaction: its `load_account` stays -/
+  | retried
+  /-- loaded inside a sub-call that reverted: still in the journal's map, marked cold again -/
+  | revertedCold
+deriving Repr
+
+/-- the database and the journal's entry for the target at the moment creation starts -/
+def journalEntry (db : Db) (a : Addr) : Warmth → Db × Option JAccount
+  | .coldFirstTouch => (db, none)
+  | .accessList keys =>
+    let r := db.query (.basic a)
+    let p := preloadKeys r.1 a keys []
+    (p.1, some { target := targetOfInfo (infoOfReply r.2), cold := false, slots := p.2 })
+  | .opcodeLoad =>
+    let r := db.query (.basic a)
+    (r.1, some { target := targetOfInfo (infoOfReply r.2), cold := false, slots := [] })
+  | .called =>
+    let r := db.query (.basic a)
+    (r.1, some { target := { targetOfInfo (infoOfReply r.2) with touched := true }, cold := false, slots := [] })
+  | .retried =>
+    -- the failed attempt ran `load_account` and `has_storage`, and its checkpoint was reverted
+    let r := db.query (.basic a)
+    let r2 := r.1.query (.hasStorage a)
+    (r2.1, some { target := targetOfInfo (infoOfReply r.2), cold := false, slots := [] })
+  | .revertedCold =>
+    let r := db.query (.basic a)
+    (r.1, some { target := targetOfInfo (infoOfReply r.2), cold := true, slots := [] })
+
+/-- `JournaledState::load_account`: the (possibly freshly loaded) entry, marked warm, and `is_cold`.
+`preloaded` = the address is in `warm_preloaded_addresses`. -/
+def loadAccount (db : Db) (a : Addr) (j : Option JAccount) (preloaded : Bool) : Db × JAccount × Bool :=
+  match j with
+  | some acc => (db, { acc with cold := false }, acc.cold)
+  | none =>
+    let r := db.query (.basic a)
+    (r.1, { target := targetOfInfo (infoOfReply r.2), cold := false, slots := [] }, !preloaded)
+
+/-- `make_create_frame` / `make_eofcreate_frame` from the point where the address is known, on the
+journal entry `j`: `load_account` (its `is_cold` is not looked at), `db.has_storage`,
+`create_account_checkpoint` -/
+def makeCreateFrameJ (db : Db) (a : Addr) (j : Option JAccount) (preloaded : Bool)
+    (value gasLimit : Nat) (spuriousDragon : Bool) : Outcome :=
+  let l := loadAccount db a j preloaded
+  makeCreateFrame l.1 a l.2.1.target value gasLimit spuriousDragon
+
+/-- the same with the journal entry produced by one of the ways of becoming warm -/
+def makeCreateFrameW (db : Db) (a : Addr) (w : Warmth) (value gasLimit : Nat) (spuriousDragon : Bool) : Outcome :=
+  let e := journalEntry db a w
+  makeCreateFrameJ e.1 a e.2 false value gasLimit spuriousDragon
+
+/-- the target the creation sees for this way of becoming warm (for "target unchanged") -/
+def loadedTarget (db : Db) (a : Addr) (w : Warmth) : Target :=
+  let e := journalEntry db a w
+  (loadAccount e.1 a e.2 false).2.1.target
+
 end Revm.Model.Collision
